@@ -19,6 +19,8 @@ RULE = ("family 'table': one case per quantity class covering ALL its declared u
         "compound-unit recomposition; every result made during a case is re-read at its end (value bits, unit, type unchanged); family 'names': the public name list in-process and in a fresh interpreter; "
         "family 'rnd': random (class, unit, unit2, value, value2) quadruples with log-uniform magnitudes; "
         "non-trivial = class with >= 2 units (table) / two different units (rnd); distinct = canonical case hash")
+RULE += '; quantities are constructed positionally, with unit= by keyword and with both by keyword in turn'
+RULE += '; and with the unit name as an instance of a str subclass'
 ASSUMPTIONS = ["the class attributes _units/_baseunit/_displayunits/_descriptions documented in Quantity's docstring are the declaration tables",
                "|value| in {0} or [1e-12, 1e12] so value*factor neither overflows nor underflows",
                "a compound unit is judged only when its atoms resolve to declared units whose signatures compose to the class signature; others are counted as unresolved"]
@@ -139,18 +141,36 @@ def _still_the_same(ctx):
     del _LIVE[:]
 
 
+class _UnitName(str):
+    pass
+
+
 def _check_qty(ctx, cls, unit, value, info):
     from vlib.base import fx
     f = cls._units[unit]
     ctx.count("unit_value_checks")
+    # the ways to write the same constructor call; the unit name may also be an instance of a str subclass (a model's own
+    # unit-name type, a (str, Enum) member): it is that string
+    form = ["positional", "unit-by-keyword", "both-by-keyword", "unit-as-str-subclass"][len(_LIVE) % 4]
+    info = {**info, "constructed": form}
     try:
-        q = _keep(cls(value, unit))
+        q = _keep(cls(value, unit) if form == "positional" else cls(value, unit=unit) if form == "unit-by-keyword" else
+                  cls(unit=unit, value=value) if form == "both-by-keyword" else cls(value, _UnitName(unit)))
     except Exception as e:
         ctx.viol(f"construct:raises:{type(e).__name__}", {**info, "exc": repr(e)})
         return None
+    ctx.seen("constructor_call_forms", form)
     want = value * f
     if fx(float(q.si)) != fx(float(want)) or fx(float(q)) != fx(float(want)):
         ctx.viol("si-value", {**info, "got": fx(float(q.si)), "want": fx(float(want)), "factor": f})
+    # the coercion idiom cls(x) with a quantity of the same class: a quantity of that SI value (in the base unit); the argument
+    # is an argument - it is not changed (the registry re-reads it at the end of the case, and here)
+    try:
+        c = _keep(cls(q))
+        if type(c) is not cls or fx(float(c)) != fx(float(q) * cls._units[cls._baseunit]) or q.unit != unit or c.unit != cls._baseunit:
+            ctx.viol("coercion-of-a-quantity", {**info, "got": [type(c).__name__, fx(float(c)), getattr(c, "unit", None)], "argument_unit_now": q.unit})
+    except Exception as e:
+        ctx.viol(f"coercion-of-a-quantity:raises:{type(e).__name__}", {**info, "exc": repr(e)})
     if q.unit != unit:
         ctx.viol("unit-getter", {**info, "got": q.unit})
     try:
